@@ -47,6 +47,12 @@ func mustWriteTargets(c *Ctx, p *core.Prog, prop string) []*ssa.Function {
 	switch prop {
 	case "C09", "C10", "C11", "C12":
 		return nil
+	case "C15":
+		for _, n := range []string{"(*shuffle.PairShuffle).Prove", "(*shuffle.SimpleShuffle).Prove", "(*shuffle.PairShuffle).Init", "(*shuffle.SimpleShuffle).Init"} {
+			if fn := p.Fn(n); fn != nil {
+				out = append(out, fn)
+			}
+		}
 	case "C19":
 		for _, it := range c.implTypes(p) {
 			if it.Kind != "xof" {
